@@ -25,19 +25,21 @@ func New[T comparable]() *Notifier[T] {
 	}
 }
 
-func (v *Notifier[T]) removeListener(value T) {
+// removeListener drops one reference of the entry that the de-registering listener was created on. It never closes
+// the channel: a closed channel is the signal of Notify and nothing else. If the value has meanwhile been notified
+// (and possibly re-registered by a later listener), the entry in the map is not ours and is left alone.
+func (v *Notifier[T]) removeListener(value T, channel chan struct{}) {
 	v.mutex.Lock()
 	defer v.mutex.Unlock()
 
 	valueListeners, exists := v.listeners.Get(value)
-	if !exists {
+	if !exists || valueListeners.channel != channel {
 		return
 	}
 	valueListeners.count--
 
 	if valueListeners.count == 0 {
-		// No one is listening anymore, so we can close the channel and clean up
-		close(valueListeners.channel)
+		// No one is listening anymore, so we can clean up
 		v.listeners.Delete(value)
 	}
 }
@@ -49,8 +51,10 @@ func (v *Notifier[T]) Listener(value T) *Listener {
 
 	if valueListener, exists := v.listeners.Get(value); exists {
 		valueListener.count++
-		return newListener(valueListener.channel, func() {
-			v.removeListener(value)
+		channel := valueListener.channel
+
+		return newListener(channel, func() {
+			v.removeListener(value, channel)
 		})
 	}
 
@@ -58,7 +62,7 @@ func (v *Notifier[T]) Listener(value T) *Listener {
 	v.listeners.Set(value, &listener{msgProcessedChan, 1})
 
 	return newListener(msgProcessedChan, func() {
-		v.removeListener(value)
+		v.removeListener(value, msgProcessedChan)
 	})
 }
 
